@@ -119,6 +119,36 @@ CLAIMED = {
          "through C05/C06.",
          "TLC-enumerated operation sequences with abstract results replayed on the real representation",
          "DESIGN.md §6 C32"),
+ "C13": ("model_checking",
+         "Scanner.tla defines tokenisation (longest match, first declared on ties, positive/negative lookahead, enter/push/pop with pop "
+         "on the empty stack, automatic tokens, error token / gaps); for every configuration of its catalogue TLC enumerates all texts up "
+         "to the bound with the expected token sequence. The real scanner (parol pipeline -> generated source -> scnr2_generate) is read "
+         "through the real TokenStream with k=1,2,3 and three consumption schedules; all nine sequences must equal the expected one.",
+         "texts up to 4 (6) characters; regular expressions limited to the interpreted fragment; the scanner tables are built by the "
+         "harness with scnr2_generate instead of the proc-macro.",
+         "TLA+ executable definition of the tokenisation rules; TLC-enumerated texts replayed on the real scanner and token stream",
+         "DESIGN.md §6 C13"),
+ "C14": ("model_checking",
+         "Same machinery as C13 comparing per token the text slice, byte offsets and start/end line/column with the positions computed by "
+         "Scanner.tla (multi-byte characters, CR/LF, gaps); the generated LL and LR parsers run on every text and on success the tree's "
+         "leaves must be exactly the expected tokens. Contiguity of leaves is also enforced on every recorded parser run by the trace specs.",
+         "texts up to 4 (6) characters over 4 configurations; known finding F05 (scnr2) suppressed for exactly its inputs.",
+         "TLA+ position/tokenisation definition; exhaustive texts replayed on scanner, token stream and both parsers",
+         "DESIGN.md §6 C14"),
+ "C15": ("model_checking",
+         "Comment configurations (/* */, <!-- -->, (* *), --- --, //, --) with texts built from delimiter pieces; expected comment end = "
+         "first occurrence of the end delimiter (string search in Scanner.tla, independent of parol's regular expression); line comments "
+         "include their line break.",
+         "texts up to 6 (8) pieces; lone CR is not treated as a line end; known finding F07 suppressed for exactly its inputs.",
+         "TLA+ first-occurrence definition; TLC-enumerated texts replayed on the real scanner",
+         "DESIGN.md §6 C15"),
+ "C16": ("model_checking",
+         "Configurations with/without %allow_unmatched and with automatic newline/whitespace off: expected stream has a non-skippable "
+         "error token for every unmatched character (also line feeds) or a skipped gap when unmatched input is allowed; LL and LR parsers "
+         "must fail exactly when an error token is expected and keep gaps as leaves.",
+         "texts up to 4 (6) characters; known finding F06 suppressed for exactly its inputs.",
+         "TLA+ definition of unmatched-input handling; exhaustive texts replayed on scanner and parsers",
+         "DESIGN.md §6 C16"),
 }
 
 NOT_YET = "check not built yet in this round (see DESIGN.md §11.2 build order); will be claimed once its quick check passes on the unchanged tree"
